@@ -7,9 +7,16 @@
     path closures terminate by the potential-function argument of C03.  No Python-stack exhaustion
     can be exhibited by the model; the harness measures it (RecursionError / wall clock).
   * Loud at the limit, silent back-out on fresh shapes: below.
+  * Exact below the limit, never silently truncated — `limit_only_truncates_loudly`: for every input and
+    every pair of limits L ≤ L', the run under L *is* the run under L' (same verdict, same results, nested
+    details included, same failure) or it is the "Validation path too deep" failure.  Hence a report that is
+    returned under some limit is the report under every larger limit (`report_exact_below_limit`): the limit
+    cannot turn nesting into a conforming verdict.  Proof: `DepthMono.lean`, a simulation through every
+    constraint component, both loops and the nested evaluations (fuel and limit generalised together).
 -/
 import PyshaclProofs.DepthLemmas
 import PyshaclProofs.EvalLemmas
+import PyshaclProofs.DepthMono
 namespace Pyshacl.C19
 open Pyshacl
 
@@ -27,6 +34,30 @@ theorem backout_silent_on_fresh_shape (path : List PathEntry) (self : Term) (k :
     inTriggers (recursionTriggers path self k) x = false :=
   triggers_silent_of_fresh path self k h x
 
+/-- **the depth limit only ever truncates loudly** -/
+theorem limit_only_truncates_loudly (o : Opts) (n : Nat) (hn : o.maxDepth ≤ n) (sg dg : Graph) (rx : Regex)
+    (focus useShapes : List Term) (sq : Term → Term → Option (List Sol)) (sqInfo : Term → Option SparqlTemplate)
+    (va : Term → Term → Term → Term → Option ValidatorAnswer) (adv : AdvTables) :
+    runValidate o sg dg rx focus useShapes sq sqInfo va adv
+        = runValidate { o with maxDepth := n } sg dg rx focus useShapes sq sqInfo va adv ∨
+    runValidate o sg dg rx focus useShapes sq sqInfo va adv = .error (.runtime "pathTooDeep") :=
+  runValidate_trunc o n hn sg dg rx focus useShapes sq sqInfo va adv
+
+/-- a report returned under a limit is the report under every larger limit: verdict and results are exact -/
+theorem report_exact_below_limit (o : Opts) (n : Nat) (hn : o.maxDepth ≤ n) (sg dg : Graph) (rx : Regex)
+    (focus useShapes : List Term) (sq : Term → Term → Option (List Sol)) (sqInfo : Term → Option SparqlTemplate)
+    (va : Term → Term → Term → Term → Option ValidatorAnswer) (adv : AdvTables) (conf : Bool) (rs : List Result)
+    (h : runValidate o sg dg rx focus useShapes sq sqInfo va adv = .ok (conf, rs)) :
+    runValidate { o with maxDepth := n } sg dg rx focus useShapes sq sqInfo va adv = .ok (conf, rs) :=
+  runValidate_limit_irrelevant o n hn sg dg rx focus useShapes sq sqInfo va adv (conf, rs) h
+
+/-- the same for one (nested) shape evaluation and its fuel: less fuel or a smaller limit truncates loudly or not at all -/
+theorem nested_evaluation_truncates_loudly (c : Ctx) (n : Nat) (hn : c.o.maxDepth ≤ n) (fuel fuel' : Nat) (hf : fuel ≤ fuel')
+    (s : Shape) (focus : Option (List Term)) (path : Option (List PathEntry)) :
+    validateShape c fuel s focus path = validateShape (c.withDepth n) fuel' s focus path ∨
+    validateShape c fuel s focus path = .error (.runtime "pathTooDeep") :=
+  validateShape_trunc c n hn fuel fuel' hf s focus path
+
 /-- obligations over the regenerated caps: the depth test is `len(path) // 2 >= limit`, the default limit is 15 -/
 theorem depth_test_shape : Caps.depthDivisor = 2 ∧ Caps.maxValidationDepth = 15 ∧ Caps.triggerMinLen = 4 ∧ Caps.triggerDepth = 3 := by decide
 
@@ -39,5 +70,10 @@ def sgChain : Graph :=
 example : (match runValidate { maxDepth := 2 } sgChain [] (fun _ _ _ => none) [] [] with
     | .error (.runtime w) => w | _ => "") = "pathTooDeep" := by decide
 example : (runValidate { maxDepth := 3 } sgChain [] (fun _ _ _ => none) [] []).toOption.map (·.1) = some false := by decide
+
+/-! both disjuncts of `limit_only_truncates_loudly` occur: limit 2 truncates the chain loudly, limit 3 agrees with limit 30 -/
+example : (runValidate { maxDepth := 3 } sgChain [] (fun _ _ _ => none) [] []).toOption.map (fun p => (p.1, p.2.length))
+    = (runValidate { maxDepth := 30 } sgChain [] (fun _ _ _ => none) [] []).toOption.map (fun p => (p.1, p.2.length)) := by decide
+example : (runValidate { maxDepth := 30 } sgChain [] (fun _ _ _ => none) [] []).toOption.map (fun p => (p.1, p.2.length)) = some (false, 1) := by decide
 
 end Pyshacl.C19
